@@ -1,4 +1,5 @@
 import ScsiVerif.Lemmas.Decode
+import ScsiVerif.Gen.Enums
 /-!
 # C04 — well-formed device responses are decoded to the values the device sent
 
@@ -151,6 +152,45 @@ theorem prReadReservation_none_decodes (v : Vals) (hr : InRangeD prHeader.rel v)
   rw [hgen, hlen, hal]
   unfold Dec.prReadReservationBody
   rw [if_pos rfl]
+
+/-! ## the model's dispatch constants -/
+
+def enumVal (m e k : String) : Option Nat :=
+  (Gen.enums.find? (fun x => x.1 == m && x.2.1 == e)).bind (fun x => (x.2.2.find? (·.1 == k)).map (·.2))
+
+/-- the constants the decoder / builder models dispatch on, with the library's names for them -/
+def modelConstants : List (String × String × String × Nat) := [
+  ("scsi_enum_inquiry", "VPD", "SUPPORTED_VPD_PAGES", 0x00), ("scsi_enum_inquiry", "VPD", "UNIT_SERIAL_NUMBER", 0x80),
+  ("scsi_enum_inquiry", "VPD", "DEVICE_IDENTIFICATION", 0x83), ("scsi_enum_inquiry", "VPD", "EXTENDED_INQUIRY_DATA", 0x86),
+  ("scsi_enum_inquiry", "VPD", "ATA_INFORMATION", 0x89), ("scsi_enum_inquiry", "VPD", "BLOCK_LIMITS", 0xB0),
+  ("scsi_enum_inquiry", "VPD", "BLOCK_DEVICE_CHARACTERISTICS", 0xB1), ("scsi_enum_inquiry", "VPD", "LOGICAL_BLOCK_PROVISIONING", 0xB2),
+  ("scsi_enum_inquiry", "VPD", "REFERRALS", 0xB3),
+  ("scsi_enum_inquiry", "DESIGNATOR", "VENDOR_SPECIFIC", 0), ("scsi_enum_inquiry", "DESIGNATOR", "T10_VENDOR_ID", 1),
+  ("scsi_enum_inquiry", "DESIGNATOR", "EUI_64", 2), ("scsi_enum_inquiry", "DESIGNATOR", "NAA", 3),
+  ("scsi_enum_inquiry", "DESIGNATOR", "RELATIVE_TARGET_PORT_IDENTIFIER", 4), ("scsi_enum_inquiry", "DESIGNATOR", "TARGET_PORTAL_GROUP", 5),
+  ("scsi_enum_inquiry", "DESIGNATOR", "LOGICAL_UNIT_GROUP", 6), ("scsi_enum_inquiry", "DESIGNATOR", "MD5_LOGICAL_IDENTIFIER", 7),
+  ("scsi_enum_inquiry", "DESIGNATOR", "SCSI_NAME_STRING", 8), ("scsi_enum_inquiry", "DESIGNATOR", "PCI_EXPRESS_ROUTING_ID", 9),
+  ("scsi_enum_inquiry", "NAA", "IEEE_EXTENDED", 2), ("scsi_enum_inquiry", "NAA", "LOCALLY_ASSIGNED", 3),
+  ("scsi_enum_inquiry", "NAA", "IEEE_REGISTERED", 5), ("scsi_enum_inquiry", "NAA", "IEEE_REGISTERED_EXTENDED", 6),
+  ("scsi_enum_modesense", "PAGE_CODE", "DISCONNECT_RECONNECT", 0x02), ("scsi_enum_modesense", "PAGE_CODE", "CONTROL", 0x0A),
+  ("scsi_enum_modesense", "PAGE_CODE", "ELEMENT_ADDRESS_ASSIGNMENT", 0x1D),
+  ("scsi_enum_persistentreserve", "PROTOCOL_ID", "FIBRE_CHANNEL", 0), ("scsi_enum_persistentreserve", "PROTOCOL_ID", "IEEE_1394", 3),
+  ("scsi_enum_persistentreserve", "PROTOCOL_ID", "RDMA", 4), ("scsi_enum_persistentreserve", "PROTOCOL_ID", "ISCSI", 5),
+  ("scsi_enum_persistentreserve", "PROTOCOL_ID", "SAS", 6), ("scsi_enum_persistentreserve", "PROTOCOL_ID", "SOP", 0xA),
+  ("scsi_enum_readdiscinformation", "DISC_INFORMATION_DATA_TYPE", "STANDARD_DISC_INFORMATION", 0),
+  ("scsi_enum_readdiscinformation", "DISC_INFORMATION_DATA_TYPE", "TRACK_RESOURCES_INFORMATION", 1),
+  ("scsi_enum_readdiscinformation", "DISC_INFORMATION_DATA_TYPE", "POW_RESOURCES_DISC_INFORMATION", 2),
+  ("scsi_enum_readelementstatus", "ELEMENT_TYPE", "STORAGE", 2), ("scsi_enum_readelementstatus", "ELEMENT_TYPE", "IMPORT_EXPORT", 3),
+  ("scsi_enum_readelementstatus", "ELEMENT_TYPE", "DATA_TRANSFER", 4),
+  ("scsi_cdb_report_target_port_groups", "DATA_FORMAT_TYPE", "EXTENDED_HEADER_PARAMETER_DATA_FORMAT", 1),
+  ("scsi_cdb_readcd", "EXPECTED_SECTOR_TYPE", "CDDA", 1), ("scsi_cdb_readcd", "EXPECTED_SECTOR_TYPE", "MODE_1", 2),
+  ("scsi_cdb_readcd", "EXPECTED_SECTOR_TYPE", "MODE_2_FORMLESS", 3), ("scsi_cdb_readcd", "EXPECTED_SECTOR_TYPE", "MODE_2_FORM_1", 4),
+  ("scsi_cdb_readcd", "EXPECTED_SECTOR_TYPE", "MODE_2_FORM_2", 5)]
+
+/-- **the literals in `Model/Formats/*` are the library's enum values** (regenerated every run) -/
+theorem model_constants_match : modelConstants.all (fun x => enumVal x.1 x.2.1 x.2.2.1 == some x.2.2.2) = true := by
+  decide +kernel
+
 
 /-! ## header + fixed-size descriptors -/
 
